@@ -1,6 +1,7 @@
 package main
 
 import (
+	"bufio"
 	"bytes"
 	"fmt"
 	"io"
@@ -136,7 +137,7 @@ func opRdOps(p []string) string {
 }
 
 // sched <fmt> <hex> <sched> <eof>: decode through a scheduling reader; oracle = same as one-shot decoding
-func opSched(p []string) string {
+func opSched(p []string, wrap string) string {
 	data, err := parseHexOrDash(p[1])
 	if err != nil {
 		return "bad-op"
@@ -147,7 +148,17 @@ func opSched(p []string) string {
 		}
 		return json.NewDecoder(r)
 	}
-	sr := newSched(data, p[2], p[3])
+	var sr io.Reader = newSched(data, p[2], p[3])
+	switch wrap {
+	case "bufio":
+		// the caller hands over an already buffered reader (which passes empty reads through one to one)
+		sr = bufio.NewReaderSize(sr, 16)
+	case "bufio4k":
+		sr = bufio.NewReader(sr)
+	case "plain":
+		// a reader type that offers nothing beyond Read
+		sr = struct{ io.Reader }{sr}
+	}
 	toks, class, _ := runDecoder(mk(sr), 2*len(data)+8)
 	got := showToks(toks) + "/" + class
 	buf := bytes.NewBuffer(data)
